@@ -36,6 +36,7 @@ type LiveOpts struct {
 	SaveBusy                                                           int
 	Chunk, Latency                                                     bool
 	Startup                                                            *cisco.Conf // nil = same as running
+	World                                                              *world.World // reuse this basedir (not removed afterwards)
 }
 
 type Status struct {
@@ -94,12 +95,16 @@ func (c *Ctx) LiveCisco(cs *CiscoCase, o LiveOpts, sched *tape.Tape) *LiveResult
 	if pw == "" {
 		pw = "secret"
 	}
-	w, err := world.New(c.Root, world.Opts{Model: cs.Kind, Files: cs.Files,
-		CheckBanner: o.CheckBanner, Timeout: o.Timeout, LoginTO: o.LoginTO, Password: pw})
-	if err != nil {
-		c.T.Fatal(err)
+	w := o.World
+	if w == nil {
+		var err error
+		w, err = world.New(c.Root, world.Opts{Model: cs.Kind, Files: cs.Files,
+			CheckBanner: o.CheckBanner, Timeout: o.Timeout, LoginTO: o.LoginTO, Password: pw})
+		if err != nil {
+			c.T.Fatal(err)
+		}
+		defer os.RemoveAll(w.Dir)
 	}
-	defer os.RemoveAll(w.Dir)
 	log := evlog.New()
 	dev := &cisco.Device{
 		Node: cisco.NewNode(cs.A.Clone()), Log: log, PrintOpt: cs.PO, Password: pw,
@@ -176,7 +181,7 @@ func (c *Ctx) LiveCisco(cs *CiscoCase, o LiveOpts, sched *tape.Tape) *LiveResult
 	if o.Compare {
 		suffix = ".compare"
 	}
-	r.RunLog = r.Files[filepath.Join("policies/p1/log", w.DevName+suffix)]
+	r.RunLog = r.Files[filepath.Join("policies", w.Policy, "log", w.DevName+suffix)]
 	// Normalise the scratch path out of all texts.
 	for k, v := range r.Files {
 		r.Files[k] = strings.ReplaceAll(v, w.Dir, "BASEDIR")
@@ -208,3 +213,5 @@ func tail(l []string, n int) []string {
 	}
 	return l
 }
+
+func jsonUnmarshal(data []byte, v any) error { return json.Unmarshal(data, v) }
